@@ -277,15 +277,40 @@ def check(ctx, report):
                 off = cl.args[1] if len(cl.args) > 1 else None
                 if not (isinstance(off, ast.Name) and assigned_in(loop, off.id)):
                     report.add('C19.R3', sa.construct + '@rescan[%s]' % cl.func.attr, 'scan inside the item loop starts at %s, which the loop does not advance' % (ast.unparse(off) if off is not None else '?'))
-        fors = [n for n in ast.walk(scan.node) if isinstance(n, ast.For)]
-        if fors:
-            it = ast.unparse(fors[0].iter)
-            if not it.startswith('range(item_offset'):
-                report.add('C19.R3', scan.construct + '@origin', 'separator scan does not start at the item offset (%s)' % it)
+        scan_origin(report, scan)
     report.floor('C19.R1', 300, 'classes in the containment graph')
     stateless_parsing(ctx, report)
     linear_scans_in_loops(ctx, report)
     report.floor('C19.R4', 60, 'loop/item obligations')
+
+
+def scan_origin(report, scan):
+    """every construct of the separator scanner that walks over the input - a ``for`` over a range bounded by the input
+    length, a find / index / split / partition of the input - starts at the item offset: _parse_string_array calls the
+    scanner once per item, a scan from the beginning of the input makes the whole array quadratic"""
+    params = [a.arg for a in scan.node.args.args]
+    origin = params[2] if len(params) > 2 else 'item_offset'
+
+    def on_input(n):
+        return 'self._parsable' in ast.unparse(n)
+
+    def starts_at_origin(n):
+        return isinstance(n, ast.AST) and any(isinstance(x, ast.Name) and x.id == origin for x in ast.walk(n))
+    n_sites = 0
+    for n in ast.walk(scan.node):
+        if isinstance(n, ast.For) and on_input(n.iter):
+            n_sites += 1
+            it = n.iter
+            ok = isinstance(it, ast.Call) and isinstance(it.func, ast.Name) and it.func.id == 'range' and len(it.args) >= 2 and starts_at_origin(it.args[0])
+            if not ok:
+                report.add('C19.R3', scan.construct + '@origin', 'separator scan does not start at the item offset (%s)' % ast.unparse(it))
+        if isinstance(n, ast.Call) and isinstance(n.func, ast.Attribute) and n.func.attr in ('find', 'index', 'rfind', 'rindex', 'split', 'partition', 'count') \
+                and ast.unparse(n.func.value) == 'self._parsable':
+            n_sites += 1
+            if n.func.attr in ('split', 'partition') or len(n.args) < 2 or not starts_at_origin(n.args[1]):
+                report.add('C19.R3', scan.construct + '@origin', 'separator scan does not start at the item offset (%s)' % ast.unparse(n))
+    if not n_sites:
+        report.error('C19.R3: no construct scanning the input found in %s (anchor moved)' % scan.qualname)
 
 
 def mentions_input(v, depth=0):
